@@ -5548,7 +5548,7 @@ func (t *Terminal) Loop() error {
 				}
 			case actToggleSearch:
 				t.paused = !t.paused
-				changed = !t.paused
+				changed = changed || !t.paused
 				req(reqPrompt)
 			case actToggleTrack:
 				switch t.track {
